@@ -11,7 +11,6 @@ import "github.com/orda-io/orda/client/pkg/model"
 
 // two replicas expose the same map view: same keys (tombstones included), same values, same
 // (Era, Lamport, CUID) write times, same live count
-//@ pred tnAs(t timedType) = t.(as *timedNode)
 //@ pred mapViewEq(a *mapSnapshot, b *mapSnapshot) = a.Size == b.Size && (forall k string :: (k in a.Map) == (k in b.Map) && (k in a.Map ==> tnAs(a.Map[k]).V == tnAs(b.Map[k]).V && tsSame(tnAs(a.Map[k]).T, tnAs(b.Map[k]).T)))
 // replicas share no node objects
 //@ pred mapsApart(a *mapSnapshot, b *mapSnapshot) = a != b && a.Map != b.Map && (forall k1 string, k2 string :: k1 in a.Map && k2 in b.Map ==> a.Map[k1] != b.Map[k2])
